@@ -60,11 +60,20 @@ fn materialize(p: &Path, s: &PState) -> std::io::Result<()> {
       if p.is_file() { remove_any(p); }
       if !p.exists() { fs::create_dir(p)?; }
       for e in fs::read_dir(p)? { let e = e?; let _ = fs::remove_file(e.path()); }
-      for n in names { File::create(p.join(n))?; }
+      for n in names { File::create(p.join(os_name(n)))?; }
       set_mtime(p, t(*slot))?;
     }
   }
   Ok(())
+}
+
+/// Entry names are kept as Strings; a name of the form `RAWHEX:<hex>` stands for those raw bytes (not valid UTF-8).
+fn os_name(n: &str) -> std::ffi::OsString {
+  use std::os::unix::ffi::OsStringExt;
+  match n.strip_prefix("RAWHEX:") {
+    Some(hex) => std::ffi::OsString::from_vec((0..hex.len() / 2).map(|i| u8::from_str_radix(&hex[2 * i..2 * i + 2], 16).unwrap_or(b'?')).collect()),
+    None => n.into(),
+  }
 }
 
 fn aspect_exists(s: &PState) -> bool { !matches!(s, PState::Absent) }
@@ -276,6 +285,9 @@ fn run_on(root: &Path, fsname: &'static str, tier: &str, seed: u64, rep: &mut Re
     vec![".env".into(), ".gitignore".into()], vec![".env".into()], vec!["A".into()], vec!["a b".into()], vec!["a".into(), "b".into()],
     vec!["\u{e9}".into()], vec!["e".into()], vec!["a.txt".into()], vec!["a.txt".into(), "a".into()], vec![long.clone()], vec![format!("{}x", &long[..199])],
     vec!["-".into()], vec!["~".into()], vec!["..a".into()], vec!["a.".into()],
+    // names that are not valid UTF-8 (ISO-8859-1 "cafe" with e-acute / e-grave, lone 0xff / 0xfe, an invalid byte inside)
+    vec!["RAWHEX:636166e92e747874".into()], vec!["RAWHEX:636166e82e747874".into()], vec!["RAWHEX:ff".into()], vec!["RAWHEX:fe".into()],
+    vec!["RAWHEX:61ff62".into(), "x".into()], vec!["RAWHEX:61fe62".into(), "x".into()], vec!["\u{fffd}".into()],
   ];
   for (i, n1) in special.iter().enumerate() {
     for (j, n2) in special.iter().enumerate() {
@@ -304,7 +316,7 @@ pub fn run(tier: &str, seed: u64, replay: Option<u64>) -> Report {
   let collide: u64 = rep.counters.iter().filter(|(k, _)| k.starts_with("directory_pairs_listing_in_a_colliding_order")).map(|(_, v)| *v).sum();
   rep.sample(|| J::s("File(8192 bytes, variant 0, mtime slot 0) stamped, File(8192 bytes, variant 2 = last byte differs, mtime slot 0) checked: Exists consistent, Modified consistent, Hash inconsistent"));
   rep.sample(|| J::s("Dir created [\"a\", \"bc\"] stamped, changed in place to [\"ab\", \"c\"], checked: Hash must be inconsistent"));
-  rep.rule = "Path states: absent; files of sizes around the 8 KiB read buffer and beyond (quick: 0,1,8191,8192,8193,16384; thorough: 13 sizes up to 100000) in 4 content variants (different everywhere / only last byte / only first byte) with explicitly set modification times (2 slots); small directories; and concatenation-ambiguous directory name sets ({p,qr}/{pq,r}, {pq,rs}/{p,qrs}, {p,q,rs}/{pq,r,s}, {pqr}/{pq,r}) over random letters, created in every order, changed in place; plus all ordered pairs of 21 name sets with unusual names (dot-prefixed, spaces, upper case, non-ASCII, 200 characters, trailing dot). For ALL ordered pairs (state when stamped, state when checked) x {Exists, Modified, Hash}: path and reader stamps agree, untouched => consistent, and the verdict equals equality of the documented aspect (hash: file<->directory kind change and same-name-set directories that were recreated are not claimed). Writer route: file written through Resource::write, stamp_writer == path stamp; stamped readers must still deliver the full content; Resource::write must create/truncate and refuse directories. Run on the work directory's file system and on tmpfs (/dev/shm) because directory iteration order is file-system specific. non-trivial = pair with different states.".into();
+  rep.rule = "Path states: absent; files of sizes around the 8 KiB read buffer and beyond (quick: 0,1,8191,8192,8193,16384; thorough: 13 sizes up to 100000) in 4 content variants (different everywhere / only last byte / only first byte) with explicitly set modification times (2 slots); small directories; and concatenation-ambiguous directory name sets ({p,qr}/{pq,r}, {pq,rs}/{p,qrs}, {p,q,rs}/{pq,r,s}, {pqr}/{pq,r}) over random letters, created in every order, changed in place; plus all ordered pairs of 28 name sets with unusual names (dot-prefixed, spaces, upper case, non-ASCII, 200 characters, trailing dot, names that are not valid UTF-8 and differ only in the invalid bytes, U+FFFD itself). For ALL ordered pairs (state when stamped, state when checked) x {Exists, Modified, Hash}: path and reader stamps agree, untouched => consistent, and the verdict equals equality of the documented aspect (hash: file<->directory kind change and same-name-set directories that were recreated are not claimed). Writer route: file written through Resource::write, stamp_writer == path stamp; stamped readers must still deliver the full content; Resource::write must create/truncate and refuse directories. Run on the work directory's file system and on tmpfs (/dev/shm) because directory iteration order is file-system specific. non-trivial = pair with different states.".into();
   rep.floor("directory pairs that list in a colliding order were exercised", collide > 0 || replay.is_some());
   rep.floor("writer route comparisons ran", rep.get("writer_route_comparisons") > 10 || replay.is_some());
   rep.floor("reader content comparisons ran", rep.get("reader_content_comparisons") > 10 || replay.is_some());
